@@ -163,6 +163,188 @@ func aliasRun(n, k int) string {
 // the backend comes back; four connections are made.
 //
 //	-> update=<ok|error|panic> cfg=<the processor's configuration has no health check: 1|0> served=<connections relayed to each backend>
+// c08.hc <mode>   the same processor set-up as c08.hcoff, for other updates of the health check section:
+//
+//	int   the section has no checker ("if the checker is null, then TCP checker will be selected"); the update changes only the interval
+//	atcp  a service is created whose health check has an atcp action with an expectation and nothing to send -> new=<ok|error|panic>
+//	rej   the section uses the redis checker, the second backend accepts connections and never answers (unhealthy); an update whose
+//	      atcp action is broken is rejected: the checker in force stays, the silent backend stays out
+func c08Hc(mode string) string {
+	broken := &pbhc.HealthCheck{Interval: 20 * time.Millisecond, Timeout: 100 * time.Millisecond, FallThreshold: 1, RiseThreshold: 1,
+		Checker: &pbhc.HealthCheck_AtcpChecker{AtcpChecker: &pbhc.ATCPChecker{Action: []*pbhc.ATCPChecker_Action{{Expect: []byte("\"x\"")}}}}}
+	ct := 300 * time.Millisecond
+	idle := time.Minute
+	mk := func(h *pbhc.HealthCheck) *service.Config {
+		return &service.Config{
+			Listener:        &service.Listener{Address: &common.Address{Ip: "127.0.0.1", Port: 0}},
+			ConnectTimeout:  &ct,
+			IdleTimeout:     &idle,
+			Protocol:        protocol.TCP,
+			ProtocolOptions: &service.Config_TcpOption{TcpOption: &protocol.TCPOption{}},
+			HealthCheck:     h,
+		}
+	}
+	c08seq++
+	name := fmt.Sprintf("verif-c08h-%d-%d", os.Getpid(), c08seq)
+	defer hx.DropScopes("service." + strings.Replace(name, ".", "_", -1) + ".")
+	if mode == "atcp" {
+		res := "ok"
+		func() {
+			defer func() {
+				if r := recover(); r != nil {
+					res = "panic"
+				}
+			}()
+			p, err := proc.New(name, mk(broken), []*host.Host{host.New("127.0.0.1:1")})
+			if err != nil {
+				res = "error"
+			} else {
+				p.Stop()
+			}
+		}()
+		return "new=" + res
+	}
+	// backends that answer every read with +PONG (what the redis checker and the probe connections read)
+	serve := func(b *hx.Backend, silent bool) {
+		for c := range b.Conns {
+			go func(c net.Conn) {
+				defer c.Close()
+				buf := make([]byte, 256)
+				for {
+					if _, err := c.Read(buf); err != nil {
+						return
+					}
+					if !silent {
+						c.Write([]byte("+PONG\r\n"))
+					}
+				}
+			}(c)
+		}
+	}
+	up, err := hx.NewBackend()
+	if err != nil {
+		return "sockerr"
+	}
+	defer up.Close()
+	go serve(up, false)
+	other, err := hx.NewBackend()
+	if err != nil {
+		return "sockerr"
+	}
+	defer other.Close()
+	go serve(other, mode == "rej")
+	first := &pbhc.HealthCheck{Interval: 20 * time.Millisecond, Timeout: 100 * time.Millisecond, FallThreshold: 1, RiseThreshold: 1}
+	if mode == "rej" {
+		first.Checker = &pbhc.HealthCheck_RedisChecker{RedisChecker: &pbhc.RedisChecker{}}
+	}
+	p, err := proc.New(name, mk(first), []*host.Host{host.New(up.Addr), host.New(other.Addr)})
+	if err != nil {
+		return "procerr " + err.Error()
+	}
+	if err := p.Start(); err != nil {
+		return "procerr"
+	}
+	defer p.Stop()
+	time.Sleep(2 * time.Millisecond)
+	for i := 0; i < 400 && p.Address() == ""; i++ {
+		time.Sleep(time.Millisecond)
+	}
+	time.Sleep(300 * time.Millisecond)
+	second := &pbhc.HealthCheck{Interval: 30 * time.Millisecond, Timeout: 100 * time.Millisecond, FallThreshold: 1, RiseThreshold: 1}
+	if mode == "rej" {
+		second = broken
+	}
+	upd := "ok"
+	func() {
+		defer func() {
+			if r := recover(); r != nil {
+				upd = "panic"
+			}
+		}()
+		if err := p.OnSvcConfigUpdate(mk(second)); err != nil {
+			upd = "error"
+		}
+	}()
+	time.Sleep(300 * time.Millisecond)
+	okConns := 0
+	for i := 0; i < 4; i++ {
+		c, err := net.DialTimeout("tcp", p.Address(), time.Second)
+		if err != nil {
+			continue
+		}
+		c.Write([]byte("PING\r\n"))
+		c.SetReadDeadline(time.Now().Add(500 * time.Millisecond))
+		b := make([]byte, 1)
+		if _, err := io.ReadFull(c, b); err == nil {
+			okConns++
+		}
+		c.Close()
+	}
+	return fmt.Sprintf("update=%s answered=%d/4", upd, okConns)
+}
+
+// c08.ep <mode>   the real store and controller with the recording processor:
+//
+//	retype  endpoints 1 and 2 are known as main hosts; endpoint 2 is announced again as a backup host
+//	noaddr  an endpoint update carries an endpoint without an address next to endpoint 2
+//
+//	-> store=<endpoints with type> procs=<hosts with type> | panic
+func c08Ep(mode string) string {
+	controller.VerifSetNewProc(func(name string, cfg *service.Config, hosts []*host.Host) (proc.Proc, error) {
+		return &recProc{name: name, cfg: cfg, hosts: host.NewSet(hosts...)}, nil
+	})
+	store := config.VerifNewStore(64)
+	ctl, _ := controller.New(store.Subscribe())
+	consume := func() {
+		for {
+			select {
+			case evt := <-store.Subscribe():
+				ctl.VerifHandleEvent(evt)
+				continue
+			default:
+			}
+			return
+		}
+	}
+	ep := func(n int, t service.Endpoint_Type) *service.Endpoint {
+		return &service.Endpoint{Address: &common.Address{Ip: "10.0.0.1", Port: uint32(1000 + n)}, Type: t}
+	}
+	store.VerifDependencyUpdate([]*service.Service{{Name: "svc"}}, nil)
+	store.VerifSvcConfigUpdate("svc", c08Config(1, true))
+	store.VerifSvcEndpointUpdate("svc", []*service.Endpoint{ep(1, service.Endpoint_MAIN)}, nil)
+	consume()
+	switch mode {
+	case "retype":
+		store.VerifSvcEndpointUpdate("svc", []*service.Endpoint{ep(2, service.Endpoint_MAIN)}, nil)
+		consume()
+		store.VerifSvcEndpointUpdate("svc", []*service.Endpoint{ep(2, service.Endpoint_BACKUP)}, nil)
+	case "noaddr":
+		store.VerifSvcEndpointUpdate("svc", []*service.Endpoint{{Type: service.Endpoint_MAIN}, ep(2, service.Endpoint_MAIN)}, nil)
+	default:
+		return "bad-op"
+	}
+	consume()
+	var st, pr []string
+	for _, sw := range store.VerifDump() {
+		for _, e := range sw.Endpoints {
+			if e.Address == nil {
+				st = append(st, "?")
+				continue
+			}
+			st = append(st, fmt.Sprintf("%d%s", int(e.Address.Port)-1000, strings.ToLower(e.Type.String()[:1])))
+		}
+	}
+	for _, p := range ctl.GetAllProcs() {
+		for _, h := range p.(*recProc).hosts.All() {
+			port, _ := strconv.Atoi(h.Addr[strings.LastIndex(h.Addr, ":")+1:])
+			pr = append(pr, fmt.Sprintf("%d%s", port-1000, strings.ToLower(h.Type.String()[:1])))
+		}
+	}
+	sort.Strings(st)
+	sort.Strings(pr)
+	return "store=" + strings.Join(st, ",") + " procs=" + strings.Join(pr, ",")
+}
+
 func c08HcOff() string {
 	up, err := hx.NewBackend()
 	if err != nil {
@@ -273,6 +455,12 @@ var c08seq int
 func (c08) Exec(op string) string {
 	if op == "c08.hcoff" {
 		return recoverStr(c08HcOff)
+	}
+	if f := hx.Fields(op); len(f) == 2 && f[0] == "c08.ep" {
+		return recoverStr(func() string { return c08Ep(f[1]) })
+	}
+	if f := hx.Fields(op); len(f) == 2 && f[0] == "c08.hc" {
+		return recoverStr(func() string { return c08Hc(f[1]) })
 	}
 	f := hx.Fields(op)
 	if len(f) == 3 && f[0] == "c08.alias" {
@@ -457,6 +645,13 @@ func (c08) Gen(r *hx.Run) {
 	}
 	// F-08f: the health check is removed from the configuration of a running service
 	r.Do("c08.hcoff", true, "health-check-removed")
+	// F-08g/h/i: other updates of the health check section
+	for _, m := range []string{"int", "atcp", "rej"} {
+		r.Do("c08.hc "+m, true, "health-check-updated")
+	}
+	for _, m := range []string{"retype", "noaddr"} {
+		r.Do("c08.ep "+m, true, "endpoint-update-shapes")
+	}
 	// F-08e: the announcement is read while endpoints are being removed
 	r.Do("c08.alias 30000 40", true, "announce-while-endpoints-change")
 	r.Do(fmt.Sprintf("c08.alias %d %d", 5000+rng.Intn(20000), 10+rng.Intn(30)), true, "announce-while-endpoints-change")
